@@ -87,3 +87,7 @@ pub mod write;
 
 #[cfg(test)]
 mod test_util;
+
+#[cfg(gimli_verif)]
+#[allow(missing_docs)]
+pub mod verif;
